@@ -90,8 +90,15 @@ func Run(rc *core.RunCtx) {
 		plan.NullPM = 200
 	}
 	u := uni.New(w, v, plan)
-	v.SetBlobHook(nil)
+	v.SetBlobHook(execsim.BlobHook)
 	u.Park = t.Bool(1, 3, "park-resolvers")
+	// serialisation-time panic of a subscription event: the custom scalar of events.blob panics
+	// in MarshalGQL (only operations that select it are affected)
+	// (inside a subscription event the field path does not include the root field)
+	plan.Faults = map[string]refexec.Kind{"events.blob": refexec.KMarshalPanic, "blob": refexec.KMarshalPanic}
+	// which oracles apply: C11 = protocol monitor; C04 = containment of failures; C05 = nothing
+	// left running
+	protocol := rc.Property != "C05"
 
 	transportWS := t.Choose(2, "proto") == 1
 	proto := "graphql-ws"
@@ -523,7 +530,10 @@ func Run(rc *core.RunCtx) {
 			nextID++
 			o := &opState{id: id, startSeq: seq.Add(1), wantFrame: initSent}
 			var query string
-			switch t.Choose(7, "opkind") {
+			switch t.Choose(8, "opkind") {
+			case 7:
+				o.kind, o.isStream = "sub-events-marshal-panic", true
+				query = fmt.Sprintf("subscription Op%s { events { id blob } }", id)
 			case 0, 1:
 				o.kind, o.isStream = "sub-ticks", true
 				query = fmt.Sprintf("subscription Op%s { ticks(n: 3) }", id)
@@ -665,7 +675,11 @@ func Run(rc *core.RunCtx) {
 					}
 					src := sources[id]
 					if o.isStream && src != nil && !src.pending {
-						if !o.stopSent && nd != len(src.done) {
+						if o.kind == "sub-events-marshal-panic" {
+							if len(src.done) >= 1 && !term {
+								flag("panic-not-contained", "operation %s: serialising its event panicked but the operation got no error frame at a settled point", id)
+							}
+						} else if !o.stopSent && nd != len(src.done) {
 							flag("result-lost", "operation %s: %d emissions were received by the server, %d data frames written at a settled point", id, len(src.done), nd)
 						}
 						if (o.stopSent || src.closed) && !term {
@@ -740,6 +754,27 @@ func Run(rc *core.RunCtx) {
 	}
 	synctest.Wait()
 
+	// nothing may be left running, and every operation context must be cancelled (C05 and C11)
+	leaks := core.Leaks()
+	if len(leaks) > 0 {
+		rc.Fail("goroutine-left-behind", leaks[0].TopSUTFrame(), "after the connection ended\n%s\n%s", leaks[0].Raw, desc())
+		return
+	}
+	mu.Lock()
+	for id, s := range sources {
+		if s.ctx.Err() == nil {
+			mu.Unlock()
+			rc.Fail("operation-context-not-cancelled", "op", "operation %s: its context is still live after the connection ended\n%s", id, desc())
+			return
+		}
+	}
+	mu.Unlock()
+	if !protocol {
+		rc.Res.Nontrivial = len(opOrder) > 0
+		rc.Res.Sig = execsim.SigOf(proto, initMode, strings.Join(evSig, ","), w.LogHash())
+		rc.Res.Sample = map[string]any{"proto": proto, "init_mode": initMode, "client_events": evSig, "checked": "goroutines and operation contexts after the session"}
+		return
+	}
 	vmu.Lock()
 	vio, vsite := violation, violationSite
 	vmu.Unlock()
@@ -846,13 +881,21 @@ func Run(rc *core.RunCtx) {
 			}
 		}
 	}
-	if n := closeCalls.Load(); n > 1 || (ackSeen && n != 1) {
-		rc.Fail("close-callback-count", fmt.Sprintf("%d", n), "CloseFunc fired %d times (ack seen: %v)\n%s", n, ackSeen, desc())
+	wantRec := 0
+	for _, id := range opOrder {
+		if o := opsByID[id]; o.kind == "sub-events-marshal-panic" {
+			if src := sources[id]; src != nil && len(src.done) >= 1 {
+				wantRec++
+			}
+		}
+	}
+	if got := int(panicsRecovered.Load()); got != wantRec {
+		rc.Fail("recover-count", "recover", "RecoverFunc invoked %d times for %d serialisation panics\n%s", got, wantRec, desc())
 		return
 	}
-	leaks := core.Leaks()
-	if len(leaks) > 0 {
-		rc.Fail("goroutine-left-behind", leaks[0].TopSUTFrame(), "after the connection ended\n%s\n%s", leaks[0].Raw, desc())
+	w.CountN("serialisation_panics", wantRec)
+	if n := closeCalls.Load(); n > 1 || (ackSeen && n != 1) {
+		rc.Fail("close-callback-count", fmt.Sprintf("%d", n), "CloseFunc fired %d times (ack seen: %v)\n%s", n, ackSeen, desc())
 		return
 	}
 	w.CountN("data_frames", nData)
